@@ -771,6 +771,12 @@ func genC03(repo string) (string, error) {
 	}
 	if _, smF, err := ParseFile(repo, "tsdb/tblstore/metricsdata/series_merger.go"); err == nil {
 		fmt.Fprintf(&sb, "def seriesMergeIfTree : List String := %s\n", LeanStrList(ifTreeRet(FindFunc(smF, "seriesMerger", "merge"))))
+		// round 12: the arm / consume discipline of the field loop of seriesMerger.merge
+		body, leaves, armed := fieldLoopFacts(FindFunc(smF, "seriesMerger", "merge"))
+		fmt.Fprintf(&sb, "/-- `seriesMerger.merge`, the loop over `mergeCtx.targetFields`: the top-level statements of its body; the statements\nthat leave an iteration of THAT loop or the function (`<index of the top-level statement>:<token>`; an unlabeled\n`continue`/`break` of a nested loop is not one); `everyArmIsConsumed`: the loop that calls `ResetWithTimeRange` comes before\nthe one call of `DownSamplingMultiSeriesInto`, both are top-level statements of the body, and nothing leaves the iteration\nfrom the arming loop up to that call -/\n")
+		fmt.Fprintf(&sb, "def seriesMergeFieldLoopBody : List String := %s\n", LeanStrList(body))
+		fmt.Fprintf(&sb, "def seriesMergeFieldLoopLeaves : List String := %s\n", LeanStrList(leaves))
+		fmt.Fprintf(&sb, "def everyArmIsConsumed : Bool := %v\n", armed)
 	}
 	if _, mgF, err := ParseFile(repo, "tsdb/tblstore/metricsdata/merger.go"); err == nil {
 		fmt.Fprintf(&sb, "def mergeDecoderAlloc : List String := %s\n", LeanStrList(filterContains(stmtHeads(FindFunc(mgF, "merger", "Merge")), "decodeStreams")))
@@ -1029,4 +1035,109 @@ func collectSteps(fd *ast.FuncDecl) []string {
 		return true
 	})
 	return out
+}
+
+// fieldLoopFacts reads the loop over mergeCtx.targetFields in seriesMerger.merge: the heads of the top-level statements
+// of its body, the statements that leave an iteration of that loop (or the function) as "<stmt index>:<token>", and
+// whether every iteration that arms decoders (ResetWithTimeRange) reaches the single DownSamplingMultiSeriesInto call.
+func fieldLoopFacts(fd *ast.FuncDecl) (body, leaves []string, armConsumed bool) {
+	body, leaves = []string{}, []string{}
+	if fd == nil || fd.Body == nil {
+		return
+	}
+	var loop *ast.RangeStmt
+	for _, st := range fd.Body.List {
+		if r, ok := st.(*ast.RangeStmt); ok && strings.HasSuffix(exprText(r.X), "targetFields") {
+			loop = r
+			break
+		}
+	}
+	if loop == nil {
+		return
+	}
+	containsCall := func(n ast.Node, name string) int {
+		k := 0
+		ast.Inspect(n, func(m ast.Node) bool {
+			if ce, ok := m.(*ast.CallExpr); ok && lastSel(exprText(ce.Fun)) == name {
+				k++
+			}
+			return true
+		})
+		return k
+	}
+	armAt, consumeAt, arms, consumes := -1, -1, 0, containsCall(fd.Body, "DownSamplingMultiSeriesInto")
+	for i, st := range loop.Body.List {
+		switch x := st.(type) {
+		case *ast.RangeStmt:
+			body = append(body, "range "+exprText(x.X))
+		case *ast.ForStmt:
+			body = append(body, "for")
+		case *ast.IfStmt:
+			cond := exprText(x.Cond)
+			if x.Init != nil {
+				cond = nodeText(x.Init) + "; " + cond
+			}
+			last := ""
+			if len(x.Body.List) > 0 {
+				last = retText(x.Body.List[len(x.Body.List)-1])
+			}
+			body = append(body, "if "+cond+" -> "+last)
+		default:
+			body = append(body, headText(st))
+		}
+		if containsCall(st, "ResetWithTimeRange") > 0 {
+			arms++
+			if _, isLoop := st.(*ast.RangeStmt); isLoop && armAt < 0 {
+				armAt = i
+			}
+		}
+		if es, ok := st.(*ast.ExprStmt); ok && containsCall(es, "DownSamplingMultiSeriesInto") == 1 && consumeAt < 0 {
+			consumeAt = i
+		}
+		// statements leaving the iteration: depth counts the nested loops / switches / selects we are inside
+		var walk func(n ast.Node, nested int)
+		walk = func(n ast.Node, nested int) {
+			ast.Inspect(n, func(m ast.Node) bool {
+				if m == nil || m == n {
+					return true
+				}
+				switch y := m.(type) {
+				case *ast.FuncLit:
+					return false
+				case *ast.ForStmt:
+					walk(y.Body, nested+1)
+					return false
+				case *ast.RangeStmt:
+					walk(y.Body, nested+1)
+					return false
+				case *ast.ReturnStmt:
+					leaves = append(leaves, fmt.Sprintf("%d:return", i))
+				case *ast.BranchStmt:
+					if y.Label != nil || y.Tok == token.GOTO || nested == 0 {
+						leaves = append(leaves, fmt.Sprintf("%d:%s", i, y.Tok.String()))
+					}
+				}
+				return true
+			})
+		}
+		switch x := st.(type) {
+		case *ast.RangeStmt:
+			walk(x.Body, 1)
+		case *ast.ForStmt:
+			walk(x.Body, 1)
+		default:
+			walk(st, 0)
+		}
+	}
+	armConsumed = armAt >= 0 && consumeAt > armAt && arms == 1 && consumes == 1
+	if armConsumed {
+		for _, l := range leaves {
+			var k int
+			var tok string
+			if _, err := fmt.Sscanf(strings.Replace(l, ":", " ", 1), "%d %s", &k, &tok); err == nil && k >= armAt && k < consumeAt {
+				armConsumed = false
+			}
+		}
+	}
+	return
 }
